@@ -5,6 +5,9 @@ changes under /verif/seeded/<ID>-<tag><k>/ with the result recorded in meta.json
 import json, os, shutil, subprocess, sys
 wt, out = sys.argv[1], sys.argv[2]
 tag = os.path.basename(wt).replace("seed-", "")
+subprocess.run(["git", "-C", wt, "checkout", "-q", "--", "."], check=True)
+head = subprocess.check_output(["git", "-C", "/repo", "rev-parse", "HEAD"], text=True).strip()
+subprocess.run(["git", "-C", wt, "checkout", "-q", "--detach", head], check=True)
 res = []
 for d in sorted(os.listdir(out)):
     p = os.path.join(out, d)
